@@ -826,11 +826,22 @@ def check_endtag(kind, content, path):
 
     exp = endtag_expectation(kind, content)
     _ECOUNT[0] += 1
-    tpl = ("<html><head></head><body><p>t</p></body></html>" if path == "render"
+    tpl = ("<html><head></head><body><p>t</p></body></html>" if path in ("render", "redefined")
            else "{% component_css_dependencies %}<p>t</p>{% component_js_dependencies %}")
-    cls = type(f"C13E{_ECOUNT[0]:05d}_{path}", (Component,), {"__module__": "verif_c13", "template": tpl, kind: content})
+    name = f"C13E{_ECOUNT[0]:05d}_{path}"
+    if path == "redefined":
+        # history: a class with the SAME import path and harmless code was rendered before (module reload / class factory),
+        # then the script cache was flushed: the verdict must be about the code at hand, not about the import path
+        from django_components.cache import get_component_media_cache
+
+        old_cls = type(name, (Component,), {"__module__": "verif_c13", "template": tpl, kind: "x"})
+        old_cls.render()
+        boot.clear_render_registries()
+        del old_cls
+        get_component_media_cache().clear()
+    cls = type(name, (Component,), {"__module__": "verif_c13", "template": tpl, kind: content})
     try:
-        if path == "render":
+        if path in ("render", "redefined"):
             out = cls.render()
         else:
             out = render_dependencies(cls.render(render_dependencies=False))
@@ -858,7 +869,7 @@ def gen_endtags(maxlen):
     for kind in ("js", "css"):
         for n in range(1, maxlen + 1):
             for seq in product(range(len(E_TOKENS)), repeat=n):
-                for path in ("render", "placeholders"):
+                for path in ("render", "placeholders") + (("redefined",) if n <= 2 else ()):
                     yield (kind, seq, path)
 
 
